@@ -8,6 +8,18 @@ const (
 	sentinel8  = byte(0x5e)
 )
 
+// The TWIN world (readers_run.go) holds the same inputs — equal contents, equal
+// lengths — in different surroundings: another sentinel behind every slice, and
+// every other slice with cap == len (the sentinel is still there in memory, but
+// beyond the capacity). Arguments that are equal as VALUES must give equal
+// results: a function whose result changes with what lies behind len(x), or
+// with cap(x), depends on something that is not its argument.
+const (
+	twin64 = uint64(0xa1a1a1a1a1a1a1a1)
+	twin32 = int32(0x21a1a1a1)
+	twin8  = byte(0xa1)
+)
+
 // byteRanges records where the arena's []byte inputs live, so that a STRING
 // result that aliases one of them can be recognised: a Go string is immutable
 // by contract; one that shares memory with a caller-owned []byte changes when
